@@ -275,7 +275,8 @@ Definition check_git_changes (v : val) : val :=
   let m := sset_of (c_all_changes_opts r cp b e pn) in
   let names := dStrs (payload impl) in
   let same := (tag impl =? 1) && sset_eqb names m in
-  VL [eB true; eStrs m; eB same; eB (same && sorted_nonstrict names)].
+  (* sorted, each path once *)
+  VL [eB true; eStrs m; eB same; eB (same && sorted_strict names)].
 
 (* input: repo, with_pending flag, old pending option, impl pending option *)
 Definition pending_key (e : str * cdigest) : str :=
@@ -359,6 +360,28 @@ Definition check_crash (v : val) : val :=
     let same_ptr := val_eqb (dNth obs 0) (dNth before 0) in
     let others_same := forallb (fun j => (j =? i) || val_eqb (nth j (dL (dNth obs 1)) (VL [])) (nth j (dL (dNth before 1)) (VL []))) (seq 0 (M + 3)) in
     VL [eB (2 <=? M); before; eB agree; eB (same_ptr && others_same)]
+  end.
+
+
+(* the same with a limit that changed between runs: v = [size; [[M_1; rec_1]; ...]; M; rec; observed] *)
+Definition check_crash_var (v : val) : val :=
+  let size := dnat (dNth v 0) in
+  let rs := map (fun x => (dnat (dNth x 0), dRec (dNth x 1))) (dL (dNth v 1)) in
+  let M := dnat (dNth v 2) in
+  let r := dRec (dNth v 3) in
+  let obs := dNth v 4 in
+  let f := history_var true rs in
+  match next_id M f with
+  | None => VL [eB false; VL []; eB false; eB false]
+  | Some i =>
+    let n := length (run_ops true i r) in
+    let cands := map (fun k => eFs size (crash true f i r k)) (seq 0 n) in
+    let agree := forallb (fun c => val_eqb (dNth c 0) (dNth obs 0) &&
+                   forallb (fun j => (j =? i) || val_eqb (nth j (dL (dNth obs 1)) (VL [])) (nth j (dL (dNth c 1)) (VL []))) (seq 0 (size + 3))) cands in
+    let before := eFs size f in
+    let same_ptr := val_eqb (dNth obs 0) (dNth before 0) in
+    let others_same := forallb (fun j => (j =? i) || val_eqb (nth j (dL (dNth obs 1)) (VL [])) (nth j (dL (dNth before 1)) (VL []))) (seq 0 (size + 3)) in
+    VL [eB (2 <=? M); VL [before; enat i]; eB agree; eB (same_ptr && others_same)]
   end.
 
 
@@ -517,6 +540,7 @@ Definition dispatch (name : str) (v : val) : val :=
   else if str_eqb name (bs "cp_pending") then check_cp_pending v
   else if str_eqb name (bs "tracking") then check_tracking v
   else if str_eqb name (bs "crash") then check_crash v
+  else if str_eqb name (bs "crash_var") then check_crash_var v
   else if str_eqb name (bs "cfgfile") then check_cfgfile v
   else if str_eqb name (bs "sched") then check_sched v
   else if str_eqb name (bs "plan") then check_plan v
